@@ -202,9 +202,14 @@ def shard_model(sh, part, parts):
     rng, nprng = sh.rng('model', part), sh.nprng('model', part)
     cases = case_list(sh.tier, sh.seed)
     mine = range(part, len(cases), parts)
+    interpreted = os.environ.get('NUMBA_DISABLE_JIT') == '1'
     for t, i in enumerate(mine):
         Y, X, r, cls = cases[i]
         n = len(X)
+        if interpreted and int(np.float32(r) * np.float32(n)) != int(float(np.float32(r)) * n):
+            # floor(r*n) of a single-precision ratio: the compiled code multiplies in double precision, the interpreter (numpy scalar
+            # rules) in single precision; where the two budgets differ the interpreted run is a different input, not a second opinion
+            continue
         rows, S, q = oracles.subsample_model(X, r)
         sys.stdout.write('CASE %d r=%r n=%d cls=%s\n' % (i, r, n, cls))
         sys.stdout.flush()
